@@ -48,6 +48,20 @@ class Net:
         self.phi = z3.And(self.bounds, self.cons)
 
 
+def _consts(e):
+    """the uninterpreted constants of a z3 term"""
+    out, todo, seen = set(), [e], set()
+    while todo:
+        t = todo.pop()
+        if t.get_id() in seen:
+            continue
+        seen.add(t.get_id())
+        if z3.is_const(t) and t.decl().kind() == z3.Z3_OP_UNINTERPRETED:
+            out.add(t)
+        todo.extend(t.children())
+    return out
+
+
 def solve(*fs, timeout_s=120):
     s = z3.Solver()
     s.set("timeout", int(timeout_s * 1000))
@@ -190,7 +204,7 @@ def valid_schur(x, n):
     return AND(cs)
 
 
-def valid_sports(pb, v):
+def valid_sports(pb, v, parts=False):
     n, P_, W = pb.team_nb, pb.period_nb, pb.week_nb
     team = lambda p, w, s: v[pb.team_var_index(p, w, s)]  # noqa: E731
     cs = [z3.And(0 <= team(p, w, s), team(p, w, s) < n) for p in range(P_) for w in range(W) for s in range(2)]
@@ -202,7 +216,7 @@ def valid_sports(pb, v):
     for a in range(n):  # every team plays every other team (exactly once: n(n-1)/2 slots)
         for b_ in range(a + 1, n):
             cs.append(zsum([z3.If(z3.Or(z3.And(team(p, w, 0) == a, team(p, w, 1) == b_), z3.And(team(p, w, 0) == b_, team(p, w, 1) == a)), 1, 0) for p in range(P_) for w in range(W)]) == 1)
-    return AND(cs)
+    return cs if parts else AND(cs)
 
 
 def valid_circuit(s):
@@ -492,6 +506,35 @@ def run_all(tier, only=None):
             # no schedule exists for 4 teams; schedules exist for 6, 8, ...
             exp = z3.unsat if n == 4 else z3.sat
             rep.q("sports", n, "sb preserves satisfiability (4 teams: none; 6: some)", r1 == r2 == exp, result=[str(r1), str(r2)], t0=t0, unknown=z3.unknown in (r1, r2))
+        # 8 teams (4 periods): the global implication is out of reach for z3 in the quick budget (measured: > 20 min), so each validity
+        # conjunct is decided LOCALLY: the constraints posted on (a subset of) the variables the conjunct mentions must imply it.
+        # A failing local implication is a solver counterexample of the sub-network only: it is reported if the real solver then
+        # returns an invalid schedule among its first ones (validator in replay.py), otherwise it is a note
+        if not only or "sports" in only:
+            n = 8
+            for sbk, tg in ((False, "d"), (True, "s")):
+                pp = SportsTournamentSchedulingProblem(n, symmetry_breaking=sbk)
+                net = Net(pp, tag=tg)
+                import nucs.heuristics.heuristics as HH
+
+                inst = dict(model="sports", args=[n, sbk], all_valid="sports", first=3 if not sbk else 6, configs=[dict(var_heuristic_idx=int(HH.VAR_HEURISTIC_SMALLEST_DOMAIN))])
+                rep.instances.append(inst)
+                t0 = time.time()
+                names = lambda f: {str(c) for c in _consts(f)}  # noqa: E731
+                refuted, unk = [], 0
+                # value ranges, 'every team once a week', 'at most twice per period'; 'every pair exactly once' goes through the
+                # auxiliary game variables and is decided globally at 4 (6) teams only
+                conj = valid_sports(pp, net.v, parts=True)[: pp.period_nb * pp.week_nb * 2 + pp.week_nb + pp.period_nb * n]
+                for ci, c in enumerate(conj):
+                    S = names(c)
+                    local = [net.bounds] + [r for r in net.parts[1:] if names(r) <= S]
+                    _, r = solve(*local, z3.Not(c), timeout_s=20)
+                    if r == z3.sat:
+                        refuted.append(ci)
+                    unk += r == z3.unknown
+                rep.queries += len(conj) - 1
+                qn = ("sb-" if sbk else "") + "model=>valid (each conjunct from the constraints posted on its own variables)"
+                rep.q("sports", n, qn, not refuted and not unk, result=dict(conjuncts=len(conj), refuted=refuted[:8], unknown=unk), expected="all unsat", t0=t0, unknown=(unk > 0 and not refuted))
     # ---- knapsack (shipped instance)
     if on("knapsack"):
         inst = _knapsack_instance()
